@@ -72,3 +72,13 @@ Theorem C09_source_get_follows_model : forall i,
   src_obs Failover.Legacy i = Some (model_obs Failover.Legacy i) /\ src_obs Failover.Generic i = Some (model_obs Failover.Generic i).
 Proof. intros i; split; [exact (tie_get_legacy i)|exact (tie_get_generic i)]. Qed.
 Print Assumptions C09_source_get_follows_model.
+
+(* ---- the key-tag predicate of the correspondence check is proved of the model ---- *)
+From Cache Require Import Failover FailoverRun FailoverObs Check FailoverKeysObs.
+
+(* every backend access, builder call and return in the log of every reachable state carries the key of the Get (or of
+   the Get whose background build) it belongs to — the third conjunct of C09F_obs, for the model's own spawn labels *)
+Theorem C09_trace_predicate_sound : forall fe nilb c ls s,
+  frun fe nilb c f0 ls = Some s -> tags_ok (lspawns ls) (flog s) = true.
+Proof. exact c09_tags_hold. Qed.
+Print Assumptions C09_trace_predicate_sound.
